@@ -117,11 +117,11 @@ func (i *interpreter) fmtOperand(fr *frame, spec string, verb byte, arg value, d
 				out := str("[")
 				for k, e := range x {
 					if k > 0 {
-						out = append(out, ' ')
+						out = append(out, uint8(' '))
 					}
 					out = append(out, i.fmtOperand(fr, "%v", 'v', boxFor(st.Elem(), e), depth+1)...)
 				}
-				return append(out, ']')
+				return append(out, uint8(']'))
 			}
 		}
 	case *gmap:
@@ -130,13 +130,13 @@ func (i *interpreter) fmtOperand(fr *frame, spec string, verb byte, arg value, d
 				out := str("map[")
 				for k, e := range x.liveEntries() {
 					if k > 0 {
-						out = append(out, ' ')
+						out = append(out, uint8(' '))
 					}
 					out = append(out, i.fmtOperand(fr, "%v", 'v', boxFor(mt.Key(), e.key), depth+1)...)
-					out = append(out, ':')
+					out = append(out, uint8(':'))
 					out = append(out, i.fmtOperand(fr, "%v", 'v', boxFor(mt.Elem(), e.val), depth+1)...)
 				}
-				return append(out, ']')
+				return append(out, uint8(']'))
 			}
 		}
 	case structure:
@@ -145,14 +145,14 @@ func (i *interpreter) fmtOperand(fr *frame, spec string, verb byte, arg value, d
 				out := str("{")
 				for k, e := range x {
 					if k > 0 {
-						out = append(out, ' ')
+						out = append(out, uint8(' '))
 					}
 					if strings.Contains(spec, "+") {
 						out = append(out, str(st.Field(k).Name()+":")...)
 					}
 					out = append(out, i.fmtOperand(fr, "%v", 'v', boxFor(st.Field(k).Type(), e), depth+1)...)
 				}
-				return append(out, '}')
+				return append(out, uint8('}'))
 			}
 		}
 	case *value:
